@@ -1,4 +1,4 @@
-CONSTANTS MaxK = 3 Values = {2} Codes = {5, 10} Scope = "all" Mutant = "none"
+CONSTANTS MaxK = 3 Values = {2} Codes = {5, 10} Insts = {1, 2} Scope = "all" Mutant = "none"
 SPECIFICATION Spec
 INVARIANT Inv_Reject
 INVARIANT Inv_RejectKind
